@@ -866,6 +866,7 @@ class Pair:
         self.A._imethodcall = rec_imeth
         self.A._meth_InvokeMethod = rec_meth
         self.broken = False
+        self.same = {}
 
     def pull_mode(self, mode):
         # the connection attribute behind the use_pull_operations init parameter (None: try pull, fall back)
@@ -873,7 +874,12 @@ class Pair:
         self.W._use_pull_operations = mode
 
     # --- repositories
-    def repo_diff(self):
+    def repo_diff(self, full=False):
+        """first difference between the two repositories.  Stored objects are replaced, never changed in place, by
+        the object stores (create/update store deep copies), so a pair of stored objects found equal once is skipped
+        while both objects are still the stored ones; full=True compares everything again"""
+        if full:
+            self.same = {}
         ra, rb = self.A.cimrepository, self.B.cimrepository
         na, nb = sorted(ra.namespaces, key=str.lower), sorted(rb.namespaces, key=str.lower)
         if na != nb:
@@ -889,20 +895,17 @@ class Pair:
                     return ('%s-store[%s] #names' % (what, ns), [k for k in ka if k not in kb],
                             [k for k in kb if k not in ka], '')
                 for x, y in zip(va, vb):
-                    key = (repr(x), repr(y))        # the full state of both stored objects
-                    if key in SAME:
+                    hit = self.same.get(id(x))
+                    if hit is not None and hit[0] is x and hit[1] is y:
                         continue
                     d = result_diff(x, y, owned=False)
                     if d:
                         return ('%s-store[%s] %s' % (what, ns, d[0]),) + tuple(d[1:])
-                    SAME.add(key)
+                    self.same[id(x)] = (x, y)       # holds both objects, so the id cannot be reused
         ca, cb = len(self.A._mainprovider.enumeration_contexts), len(self.B._mainprovider.enumeration_contexts)
         if ca != cb:
             return 'open-enumeration-contexts', ca, cb, ''
         return None
-
-
-SAME = set()        # pairs of stored objects (by their full repr) already found equal
 
 
 def sortkey(o):
@@ -1188,7 +1191,7 @@ def step(p, fam, op, args, kwargs, label=None, wire_args=None):
                 if d:
                     report('%s-server-saw-other-parameters-%s' % (op, d[0].replace('result', 'value')),
                            ('seen-params-' + d[0],) + tuple(d[1:]))
-    if op in WRITERS or oa[0] != ow[0]:
+    if op in WRITERS:
         d = p.repo_diff()
         if d:
             report('%s-repositories-differ-afterwards-%s' % (op, d[0].split(' ')[0]), ('repo-' + d[0],) + tuple(d[1:]))
@@ -1202,7 +1205,21 @@ DEFAULTS = ['root/cimv2', 'Ns2/Sub']
 OTHERHOST = 'other.example.com:5989'
 
 
+STATELESS = ('enum', 'get', 'assoc', 'class', 'query', 'local', 'invoke', 'iter', 'qual')
+COUNTER = [0, 0]
+
+
+def sparse(dn, which=0, every=4):
+    """quick tier: the non-default default namespace gets every 4th stateless case / every 3rd pull session"""
+    if THOROUGH or dn == DEFAULTS[0]:
+        return False
+    COUNTER[which] += 1
+    return COUNTER[which] % every != 0
+
+
 def do(dn, fam, op, *args, **kwargs):
+    if fam.split('-')[0] in STATELESS and not fam.endswith('-write') and sparse(dn):
+        return None, None
     return step(pair(dn), fam, op, args, kwargs)
 
 
@@ -1595,6 +1612,8 @@ PULLS = ('PullInstancesWithPath', 'PullInstancePaths', 'PullInstances')
 def session(dn, openop, args, kwargs, script):
     """Open, then the script of ('pull', op, MaxObjectCount) / ('close',) / ('drain', op, MaxObjectCount) steps; each
     side uses the context its own Open/Pull returned"""
+    if sparse(dn, 1, 3):
+        return
     p = pair(dn)
     oa, ow = step(p, 'pull', openop, args, kwargs)
     ctx = [oa[1].context if oa[0] == 'ok' else None, ow[1].context if ow[0] == 'ok' else None]
@@ -1720,6 +1739,8 @@ def fam_iter(dn):
                     variants = [dict(), dict(MaxObjectCount=1), dict(ReturnQueryResultClass=True),
                                 dict(namespace='Ns2/Sub'), dict(MaxObjectCount=0)]
                 for kw in thin(variants, 1 if (mode is None and not disabled) else 3):
+                    if sparse(dn):
+                        continue
                     p = pair(dn)
                     p.pull_mode(mode)
                     p.A.disable_pull_operations = p.B.disable_pull_operations = disabled
@@ -1952,6 +1973,12 @@ def main():
             except Exception as e:     # pylint: disable=broad-except
                 violation('harness-%s-%s' % (fam.__name__, type(e).__name__), error=str(e)[:300],
                           trace=traceback.format_exc()[-1500:])
+            if dn in PAIRS and not PAIRS[dn].broken:
+                d = PAIRS[dn].repo_diff(full=True)
+                if d:
+                    violation('%s-repositories-differ-at-the-end-%s' % (fam.__name__, d[0].split(' ')[0]),
+                              repository_slot=d[0], direct_value=d[1], wire_value=d[2], where=d[3])
+                    reset(dn)
             if fam in (fam_class_writes, fam_qualifiers):
                 reset(dn)
             if timing:
